@@ -180,6 +180,15 @@ func TsigGenerateWithProvider(m *Msg, provider TsigProvider, requestMAC string, 
 		return nil, "", err
 	}
 
+	// What the caller left at zero is filled in when signing; a verifier takes
+	// the variables as they stand in the message.
+	if rr.TimeSigned == 0 {
+		rr.TimeSigned = uint64(time.Now().Unix())
+	}
+	if rr.Fudge == 0 {
+		rr.Fudge = 300 // Standard (RFC) default.
+	}
+
 	buf, err := tsigBuffer(mbuf, rr, requestMAC, timersOnly)
 	if err != nil {
 		return nil, "", err
@@ -262,12 +271,6 @@ func tsigVerify(msg []byte, provider TsigProvider, requestMAC string, timersOnly
 // Create a wiredata buffer for the MAC calculation.
 func tsigBuffer(msgbuf []byte, rr *TSIG, requestMAC string, timersOnly bool) ([]byte, error) {
 	var buf []byte
-	if rr.TimeSigned == 0 {
-		rr.TimeSigned = uint64(time.Now().Unix())
-	}
-	if rr.Fudge == 0 {
-		rr.Fudge = 300 // Standard (RFC) default.
-	}
 
 	// Replace message ID in header with original ID from TSIG
 	binary.BigEndian.PutUint16(msgbuf[0:2], rr.OrigId)
